@@ -205,7 +205,7 @@ main_c19(void)
             nseg = k;
             ret = tsk_identity_segments_get(&res, a, b, &lst);
             if (store == 2) {
-                sym_assert(ret == TSK_ERR_IBD_PAIRS_NOT_STORED, "pair lookup is refused when pairs are not stored");
+                sym_assert(ret < 0, "pair lookup is refused when pairs are not stored");
                 for (k = 0; k < nseg; k++) {
                     exp_total += seg_r[k] - seg_l[k];
                 }
